@@ -281,6 +281,80 @@ pub fn run(ctx: &Ctx, model: &mut Model, rep: &mut Report) {
             }
         }
     }
+    // completion items: on one server, asked from notes of different directories one after the other (with edits that
+    // keep every title in between), every offered link resolves — from the directory of the asking note — to a note
+    // of the library, each note exactly once, and the offered text is that note's title
+    for (n, ext) in ["", ".md", ""].iter().enumerate() {
+        let lib: Vec<(String, String)> = vec![
+            ("a".to_string(), "# A\n\ntext\n".to_string()),
+            ("top".to_string(), "# Top\n\n[c](d/c)\n".to_string()),
+            ("d/a".to_string(), "# D A\n\n[c](c)\n".to_string()),
+            ("d/c".to_string(), "# C\n\ntext\n".to_string()),
+            ("d/e/deep".to_string(), "# Deep\n\n[c](../c)\n".to_string()),
+            ("d2/a".to_string(), "# Other A\n".to_string()),
+            ("v1.2".to_string(), "# Dotted\n".to_string()),
+        ];
+        let titles: std::collections::HashMap<String, String> = lib.iter().map(|(k, t)| (k.clone(), t.lines().next().unwrap_or("").trim_start_matches("# ").to_string())).collect();
+        let state: std::collections::HashMap<String, String> = lib.iter().cloned().collect();
+        let mut order: Vec<&str> = vec!["d/e/deep", "a", "d/a", "d2/a", "top", "d/c", "a", "d/e/deep"];
+        if n == 2 {
+            order.reverse();
+        }
+        oracle_cases += 1;
+        rep.count("oracle_completion_sessions");
+        let verdict = catch(std::panic::AssertUnwindSafe(|| -> Option<String> {
+            let mut server = crate::act::with_via(crate::act::Via::Import, || crate::props::c01::server_for(&state, ext));
+            for (step, asking) in order.iter().enumerate() {
+                if step % 3 == 2 {
+                    // an edit that keeps the title (the editor sends one with every typed character)
+                    server.handle_did_change_text_document(lsp_types::DidChangeTextDocumentParams {
+                        text_document: lsp_types::VersionedTextDocumentIdentifier { uri: crate::props::c01::uri_for(asking), version: step as i32 + 2 },
+                        content_changes: vec![lsp_types::TextDocumentContentChangeEvent { range: None, range_length: None, text: format!("{}\nedited {}\n", state[*asking], step) }],
+                    });
+                }
+                let resp = server.handle_completion(lsp_types::CompletionParams {
+                    text_document_position: lsp_types::TextDocumentPositionParams { text_document: lsp_types::TextDocumentIdentifier { uri: crate::props::c01::uri_for(asking) }, position: lsp_types::Position::new(0, 0) },
+                    work_done_progress_params: Default::default(),
+                    partial_result_params: Default::default(),
+                    context: None,
+                });
+                let items = match resp {
+                    lsp_types::CompletionResponse::List(l) => l.items,
+                    lsp_types::CompletionResponse::Array(a) => a,
+                };
+                let dir = crate::oracle::md::dir_of(asking);
+                let mut seen: Vec<String> = vec![];
+                for it in items {
+                    let Some(ins) = it.insert_text.clone() else { continue };
+                    // `[title](url)`
+                    let (Some(open), Some(close)) = (ins.rfind("]("), ins.rfind(')')) else { continue };
+                    if !ins.starts_with('[') || close < open {
+                        continue;
+                    }
+                    let (title, url) = (&ins[1..open], &ins[open + 2..close]);
+                    let key = crate::oracle::md::resolve(url, &dir);
+                    match titles.get(&key) {
+                        None => return Some(format!("asked from {:?} (request {} of the session): the offered link {:?} resolves from {:?} to {:?}, which is no note of the library", asking, step + 1, ins, dir, key)),
+                        Some(t) if t != title => return Some(format!("asked from {:?} (request {} of the session): the offered link {:?} resolves to {:?}, whose title is {:?}", asking, step + 1, ins, key, t)),
+                        _ => {}
+                    }
+                    seen.push(key);
+                }
+                let mut want: Vec<String> = titles.keys().cloned().collect();
+                want.sort();
+                seen.sort();
+                if seen != want {
+                    return Some(format!("asked from {:?} (request {} of the session): the offered links resolve to {:?}, the library holds {:?}", asking, step + 1, seen, want));
+                }
+            }
+            None
+        }));
+        match verdict {
+            Ok(None) => {}
+            Ok(Some(w)) => rep.fail(json!({"kind": "completion", "ext": ext, "order": order, "what": w})),
+            Err(p) => rep.fail(json!({"kind": "completion", "ext": ext, "order": order, "what": format!("panic: {}", p)})),
+        }
+    }
     rep.count_n("oracle_cases", oracle_cases);
     rep.evaluations += oracle_cases;
     rep.exhaustive = false;
